@@ -143,9 +143,12 @@ def crosscheck_handler(V, prop, handler, tier, runs, env):
     skipped = {}
     jobs = int(os.environ.get("VERIF_KERNEL_JOBS", "0") or 0) or JOBS
     shard_n = min(getattr(mod, "SHARD", SHARD), max(25, -(-len(lines) // jobs)))
-    for s0 in range(0, len(lines), shard_n):
+    # cases for which the handler printed no model text (skipped by the handler's own resource guards) are not evaluated
+    active = [k for k in range(len(lines)) if extracted[k] != "-"]
+    for s0 in range(0, len(active), shard_n):
         vfile = os.path.join(kdir, "Cases_%s_%d.v" % (handler, s0 // shard_n))
-        done, sk = cases_to_v.translate(handler, lines[s0:s0 + shard_n], vfile, first_index=s0,
+        part = active[s0:s0 + shard_n]
+        done, sk = cases_to_v.translate(handler, [lines[k] for k in part], vfile, positions=part,
                                         max_chars=getattr(mod, "MAX_CASE_CHARS", {}).get(tier))
         skipped.update(sk)
         if done:
